@@ -66,12 +66,17 @@ Qed.
 Lemma gok_nil : Sparql.Agreement.gok [].
 Proof. split; [constructor|reflexivity]. Qed.
 
+Lemma gok_ctx_active0 e a : NoDup a -> terms_nb a -> Sparql.Agreement.gok (ctx_active e a).
+Proof.
+  intros H1 H2. unfold ctx_active.
+  destruct (e_fe e); try destruct (e_union e); auto using gok_graph_at, gok_union.
+Qed.
+
 Lemma gok_m_active e w ud un a : NoDup a -> terms_nb a -> Sparql.Agreement.gok (m_active e w ud un a).
 Proof.
-  intros H1 H2. unfold m_active, ctx_active.
-  destruct ud; [|apply gok_merge; auto].
-  destruct un, w; try (apply gok_graph_at; auto);
-    destruct (e_fe e); try destruct (e_union e); auto using gok_graph_at, gok_union.
+  intros H1 H2. unfold m_active.
+  destruct ud, un; try (apply gok_merge; auto).
+  destruct w; [apply gok_graph_at|apply gok_ctx_active0]; auto.
 Qed.
 
 Lemma gname_inj c d : gname c = gname d -> c = d.
@@ -131,164 +136,25 @@ Fixpoint walg (p : Sparql.Algebra.alg) : bool :=
   | _ => false
   end.
 
-(* every GRAPH names (by IRI) a graph that [keep] keeps; GRAPH ?g only if [av] *)
-Fixpoint graphs_in (keep : term -> bool) (av : bool) (p : Sparql.Algebra.alg) : bool :=
-  match p with
-  | Sparql.Algebra.BGP _ => true
-  | Sparql.Algebra.Join _ a b | Sparql.Algebra.Union a b => graphs_in keep av a && graphs_in keep av b
-  | Sparql.Algebra.Graph (Sparql.Algebra.Tm t) q => keep t && graphs_in keep av q
-  | Sparql.Algebra.Graph (Sparql.Algebra.Vr _) q => av && graphs_in keep av q
-  | _ => false
-  end.
-
-Lemma existsb_filter_name (keep : term -> bool) (nm : list (term * Sparql.Algebra.graph)) t : keep t = true ->
-  existsb (fun ng : N * Sparql.Algebra.graph => N.eqb (fst ng) t) (filter (fun ng => keep (fst ng)) nm)
-  = existsb (fun ng : N * Sparql.Algebra.graph => N.eqb (fst ng) t) nm.
-Proof.
-  intros K. induction nm as [|[n g] r IH]; simpl; auto.
-  destruct (keep n) eqn:E; simpl; rewrite IH; auto.
-  destruct (N.eqb_spec n t); auto. subst. congruence.
-Qed.
-
-Lemma named_graph_filter (keep : term -> bool) (nm : list (term * Sparql.Algebra.graph)) t : keep t = true ->
-  Sparql.Algebra.named_graph (filter (fun ng => keep (fst ng)) nm) t = Sparql.Algebra.named_graph nm t.
-Proof.
-  intros K. induction nm as [|[n g] r IH]; simpl; auto.
-  destruct (keep n) eqn:E; simpl.
-  - destruct (N.eqb n t); auto.
-  - destruct (N.eqb_spec n t); auto. subst. congruence.
-Qed.
-
-Lemma filter_keep_all {A} (f : A -> bool) l : (forall x, In x l -> f x = true) -> filter f l = l.
-Proof. apply filter_all. Qed.
-
-(* the bottom-up value of a pattern depends on the default graph only if the
-   pattern reads it, and on the named graphs only through those it addresses *)
-Lemma eval_bu_indep keep av p : walg p = true -> graphs_in keep av p = true ->
-  forall dd dd' nm g g',
-  (av = true -> forall ng, In ng nm -> keep (fst ng) = true) ->
-  (reads_default p = false \/ g = g') ->
-  Sparql.EvalBU.eval_bu {| Sparql.Algebra.ds_default := dd; Sparql.Algebra.ds_named := nm |} g p
-  = Sparql.EvalBU.eval_bu {| Sparql.Algebra.ds_default := dd'; Sparql.Algebra.ds_named := filter (fun ng => keep (fst ng)) nm |} g' p.
-Proof.
-  induction p; simpl; try discriminate; intros W G dd dd' nm g0 g0' Hav Hd.
-  - (* BGP *)
-    destruct Hd as [Hd|Hd]; [|subst; reflexivity].
-    destruct ts; [reflexivity|discriminate].
-  - (* Join *)
-    apply andb_true_iff in W. destruct W as [W1 W2]. apply andb_true_iff in G. destruct G as [G1 G2].
-    rewrite (IHp1 W1 G1 dd dd' nm g0 g0'), (IHp2 W2 G2 dd dd' nm g0 g0'); auto;
-      (destruct Hd as [Hd|Hd]; [left; apply orb_false_iff in Hd; tauto|right; auto]).
-  - (* Union *)
-    apply andb_true_iff in W. destruct W as [W1 W2]. apply andb_true_iff in G. destruct G as [G1 G2].
-    rewrite (IHp1 W1 G1 dd dd' nm g0 g0'), (IHp2 W2 G2 dd dd' nm g0 g0'); auto;
-      (destruct Hd as [Hd|Hd]; [left; apply orb_false_iff in Hd; tauto|right; auto]).
-  - (* Graph *)
-    destruct g as [t|v].
-    + apply andb_true_iff in G. destruct G as [K G].
-      rewrite existsb_filter_name, named_graph_filter by auto.
-      destruct (existsb (fun ng : N * Sparql.Algebra.graph => N.eqb (fst ng) t) nm); auto.
-    + apply andb_true_iff in G. destruct G as [A G]. subst av.
-      rewrite (filter_keep_all _ nm) by (intros ng Hng; apply Hav; auto).
-      apply flat_map_ext'. intros ng Hng. f_equal.
-      rewrite (IHp W G dd dd' nm (snd ng) (snd ng)); auto.
-      rewrite (filter_keep_all _ nm) by (intros ng' Hng'; apply Hav; auto). reflexivity.
-Qed.
-
-Lemma graphs_outside_in un p : walg p = true -> graphs_outside un p = false ->
-  graphs_in (fun t => existsb (fun c => N.eqb (gname c) t) un) false p = true.
-Proof.
-  induction p; simpl; try discriminate; intros W G; auto.
-  - apply andb_true_iff in W. apply orb_false_iff in G. rewrite IHp1, IHp2; tauto.
-  - apply andb_true_iff in W. apply orb_false_iff in G. rewrite IHp1, IHp2; tauto.
-  - destruct g as [t|v]; [|discriminate]. apply orb_false_iff in G. destruct G as [G1 G2].
-    apply negb_false_iff in G1. rewrite G1, IHp; auto.
-Qed.
-
-Lemma graphs_in_all p : walg p = true -> graphs_in (fun _ => true) true p = true.
-Proof.
-  induction p; simpl; try discriminate; intros W; auto.
-  - apply andb_true_iff in W. rewrite IHp1, IHp2; tauto.
-  - apply andb_true_iff in W. rewrite IHp1, IHp2; tauto.
-  - destruct g; simpl; auto.
-Qed.
-
-Lemma named_graphs_filter (keep : cid -> bool) cs a :
-  named_graphs (filter keep cs) a
-  = filter (fun ng => existsb (fun c => keep c && N.eqb (gname c) (fst ng)) cs) (named_graphs cs a)
-  \/ True.
-Proof. right. exact I. Qed.
-
-(* restricting the list of graph ids = filtering the named graphs by name *)
-Lemma named_graphs_restrict un cs a : NoDup cs ->
-  named_graphs (filter (fun c => memb N.eqb c un) cs) a
-  = filter (fun ng => existsb (fun c => N.eqb (gname c) (fst ng)) un) (named_graphs cs a).
-Proof.
-  intros _. unfold named_graphs. induction cs as [|c r IH]; simpl; auto.
-  assert (E : existsb (fun c0 => gname c0 =? gname c) un = memb N.eqb c un).
-  { clear. induction un as [|u r IH]; simpl; auto. rewrite IH. f_equal.
-    destruct (N.eqb_spec (gname u) (gname c)) as [H|H]; destruct (N.eqb_spec c u) as [H'|H']; auto.
-    - apply gname_inj in H. congruence.
-    - subst. congruence. }
-  rewrite E. destruct (memb N.eqb c un); simpl; rewrite IH; reflexivity.
-Qed.
-
-(* ------------------------------------------------------------------ *)
-(* the model's solutions are the prescribed ones                         *)
-
-Lemma has_dataset_fe e : has_dataset e = true -> e_fe e = FCG \/ e_fe e = FDS.
-Proof. destruct (e_fe e) eqn:E; unfold has_dataset; rewrite E; auto; discriminate. Qed.
-
-(* equality of the two bottom-up values *)
-Lemma spec_model_bu e k w ud un d i p a : walg p = true ->
-  scope e (ModifyW w ud un d i p) -> op_kf e k (ModifyW w ud un d i p) = 0 ->
+(* the dataset evalModify evaluates WHERE on is the prescribed one *)
+Lemma spec_model_bu e w ud un p a :
   Sparql.EvalBU.eval_bu (m_ds e w ud un a) (m_active e w ud un a) p = s_omega e w ud un p a.
 Proof.
-  intros W Hs Hk. unfold s_omega, m_ds, s_named.
-  destruct (has_dataset e) eqn:Hd.
-  2:{ (* a plain Graph: no WITH/USING, no GRAPH *)
-    destruct Hs as [Hs|Hs]; [congruence|]. simpl in Hs.
-    repeat (apply orb_false_iff in Hs; destruct Hs as [Hs ?]).
-    destruct w; [discriminate|]. destruct ud; [|discriminate]. destruct un; [|discriminate].
-    unfold m_active, s_active, ctx_active. unfold has_dataset in Hd. destruct (e_fe e); try discriminate.
-    reflexivity. }
-  simpl in Hk. rewrite Hd in Hk. simpl in Hk.
-  destruct ud as [|u ud'].
-  - destruct un as [|n un'].
-    + (* the store's own dataset *)
-      unfold m_active, s_active. destruct w as [c|]; reflexivity.
-    + (* USING NAMED only *)
-      simpl in Hk. destruct (graphs_outside (n :: un') p) eqn:G; [discriminate|].
-      destruct (reads_default p) eqn:R; [discriminate|].
-      rewrite (named_graphs_restrict (n :: un') (named_of a) a (named_of_NoDup a)).
-      apply (eval_bu_indep (fun t => existsb (fun c => N.eqb (gname c) t) (n :: un')) false); auto.
-      apply graphs_outside_in; auto. intros; discriminate.
-  - simpl in Hk. destruct (graphs_outside un p) eqn:G; [discriminate|].
-    assert (E : s_active e w (u :: ud') un a = m_active e w (u :: ud') un a) by (destruct un; reflexivity).
-    rewrite E.
-    assert (E2 : named_graphs (match un with
-                               | [] => filter (fun c => memb N.eqb c un) (named_of a)
-                               | _ :: _ => filter (fun c => memb N.eqb c un) (named_of a)
-                               end) a
-                 = filter (fun ng => existsb (fun c => N.eqb (gname c) (fst ng)) un) (named_graphs (named_of a) a)).
-    { destruct un; apply (named_graphs_restrict _ (named_of a) a (named_of_NoDup a)). }
-    try rewrite E2. try rewrite (named_graphs_restrict un (named_of a) a (named_of_NoDup a)).
-    apply (eval_bu_indep (fun t => existsb (fun c => N.eqb (gname c) t) un) false); auto.
-    apply graphs_outside_in; auto. intros; discriminate.
+  unfold s_omega, m_ds, s_named, m_named, m_active, s_active.
+  destruct (has_dataset e); destruct ud, un; reflexivity.
 Qed.
 
 (* T1: the solutions evalModify computes are, as a multiset, the solutions of
    the WHERE pattern over the prescribed query dataset *)
-Theorem where_solutions e k w ud un d i p a : walg p = true ->
+Theorem where_solutions e w ud un p a :
   (forall names, Sparql.Agreement.frag names [] p = true) ->
   NoDup a -> terms_nb a ->
-  scope e (ModifyW w ud un d i p) -> op_kf e k (ModifyW w ud un d i p) = 0 ->
   Permutation (m_omega e w ud un p a) (s_omega e w ud un p a).
 Proof.
-  intros W F Hn Hb Hs Hk. rewrite <- (spec_model_bu e k w ud un d i p a W Hs Hk).
+  intros F Hn Hb. rewrite <- (spec_model_bu e w ud un p a).
   unfold m_omega.
   assert (Gn : Sparql.Agreement.graphs_nodup (m_ds e w ud un a)).
-  { unfold m_ds. destruct (has_dataset e); [apply graphs_nodup_named; auto using named_of_NoDup|].
+  { unfold m_ds. destruct (has_dataset e); [apply graphs_nodup_named; auto; unfold m_named; destruct ud, un; auto using named_of_NoDup, filter_NoDup|].
     split; simpl; [constructor|intros ng []]. }
   assert (Nb : Sparql.Fragment.ds_nb (m_ds e w ud un a)).
   { unfold m_ds. destruct (has_dataset e); [apply ds_nb_named; auto|]. intros ng []. }
